@@ -279,6 +279,13 @@ func (st *State) maxFeasible(t *Term, limit int) int {
 	return lo
 }
 
+func (ex *Exec) objCap() int {
+	if v, ok := ex.Bounds["obj_cap"]; ok {
+		return v
+	}
+	return 128
+}
+
 func (ex *Exec) allocLimit() int {
 	if v, ok := ex.Bounds["alloc_limit"]; ok {
 		return v
@@ -310,8 +317,12 @@ func (ex *Exec) makeSlice(st *State, t types.Type, ln, cp *Term, lt, ct types.Ty
 		}
 	}
 	n := st.maxFeasible(cp, ex.allocLimit())
-	if n > 1<<14 {
-		panic(abort{"unwind", fmt.Sprintf("makeslice with up to %d elements exceeds the engine's object bound", n)})
+	if !cp.IsConst() && n > ex.objCap() {
+		// physical cells are capped; an access beyond the cap ends the path as an unwinding failure
+		n = ex.objCap()
+	}
+	if n > 1<<16 {
+		panic(abort{"unwind", fmt.Sprintf("makeslice with %d elements exceeds the engine's object bound", n)})
 	}
 	id := st.newArrayObj(elem, n)
 	return SliceV{Obj: id, Off: ex.i64(0), Len: ln, Cap: cp}
@@ -366,6 +377,9 @@ func (ex *Exec) indexAddr(st *State, x Value, idx *Term, it types.Type, xt types
 		st.need(c.Ult(idx, v.Len), "index out of range")
 		pos := c.Add(v.Off, idx)
 		if pos.IsConst() {
+			if int(pos.V) >= len(st.sliceArr(v)) {
+				panic(abort{"unwind", fmt.Sprintf("access to element %d beyond the engine's physical object bound", pos.V)})
+			}
 			return Ptr{Obj: v.Obj, Path: appendPath(v.Path, int(pos.V))}
 		}
 		return Ptr{Obj: v.Obj, Path: v.Path, Sym: pos}
@@ -459,7 +473,7 @@ func (ex *Exec) sliceOp(st *State, fr *Frame, in *ssa.Slice) Value {
 		st.need(c.Ule(hi, max), "slice bounds out of range")
 		st.need(c.Ule(lo, hi), "slice bounds out of range")
 		if v.Obj == 0 {
-			return SliceV{}
+			return ex.nilSlice()
 		}
 		return SliceV{Obj: v.Obj, Path: v.Path, Off: c.Add(v.Off, lo), Len: c.Sub(hi, lo), Cap: c.Sub(max, lo)}
 	}
